@@ -46,7 +46,11 @@ func (lt *LogType) UnmarshalJSON(data []byte) error {
 		return err
 	}
 
-	*lt = LogTypeFromString(s)
+	parsed, err := parseLogType(s)
+	if err != nil {
+		return err
+	}
+	*lt = parsed
 
 	return nil
 }
@@ -68,21 +72,29 @@ func (lt LogType) String() string {
 	panic("invalid log type")
 }
 
-func LogTypeFromString(logType string) LogType {
+func parseLogType(logType string) (LogType, error) {
 	switch logType {
 	case "SET_METADATA":
-		return SetMetadataLogType
+		return SetMetadataLogType, nil
 	case "NEW_TRANSACTION":
-		return NewTransactionLogType
+		return NewTransactionLogType, nil
 	case "REVERTED_TRANSACTION":
-		return RevertedTransactionLogType
+		return RevertedTransactionLogType, nil
 	case "DELETE_METADATA":
-		return DeleteMetadataLogType
+		return DeleteMetadataLogType, nil
 	case "INSERTED_SCHEMA":
-		return InsertedSchemaLogType
+		return InsertedSchemaLogType, nil
 	}
 
-	panic("invalid log type")
+	return 0, fmt.Errorf("invalid log type '%s'", logType)
+}
+
+func LogTypeFromString(logType string) LogType {
+	ret, err := parseLogType(logType)
+	if err != nil {
+		panic("invalid log type")
+	}
+	return ret
 }
 
 // Log represents atomic actions made on the ledger.
@@ -301,7 +313,7 @@ func (s *SavedMetadata) UnmarshalJSON(data []byte) error {
 	case strings.ToUpper(MetaTargetTypeTransaction):
 		id, err = strconv.ParseUint(string(x.TargetID), 10, 64)
 	default:
-		panic("unknown type")
+		return fmt.Errorf("unknown type '%s'", x.TargetType)
 	}
 	if err != nil {
 		return err
@@ -449,6 +461,9 @@ func HydrateLog(_type LogType, data []byte) (LogPayload, error) {
 	err := json.Unmarshal(data, &payload)
 	if err != nil {
 		return nil, err
+	}
+	if payload == nil {
+		return nil, fmt.Errorf("missing payload for log of type '%s'", _type)
 	}
 
 	return reflect.ValueOf(payload).Elem().Interface().(LogPayload), nil
